@@ -305,6 +305,12 @@ def d4(cx: Cx, ob: Ob) -> None:
 def d5(cx: Cx, ob: Ob) -> None:
     fn, s = helper(cx, ob)
     conv = ("param", "converter")
+    from ..rules import table_of_code
+
+    tab = table_of_code(cx, s.paths)
+    if tab:
+        ob.undecide(f"{fn.name} decides which URIs to skip through {tab}: the skip conditions are values (a list of predicates), not tests this rule can classify")
+        return
     n = 0
     for ev, ctx in s.walk():
         if keyed_add(ev) is None:
@@ -417,6 +423,17 @@ def _order_chain(cx: Cx, ob: Ob, fn, s, seq, line) -> None:
                 key_ok = True
             elif proj == "id":
                 key_ok = True
+            else:
+                # ordered by exactly the value that is then emitted:  [f(x) for x in sorted(xs, key=f)]  is in the
+                # plain order of the emitted values
+                from ..terms import substitute as _subst
+
+                k = kw["key"]
+                outer = [c_ for n_, c_ in chain if n_ == "comp" and c_[3][0][1] == srt]
+                if outer and op(k) == "lambda" and len(k[1]) == 1 and not outer[0][3][0][2] is None:
+                    comp_ = outer[0]
+                    if _subst(k[2], {("lv", k[1][0]): comp_[3][0][0]}) == comp_[2]:
+                        key_ok = True
         if ("reverse" in kw and not is_const(kw["reverse"], False)) or not key_ok:
             ob.violate(fn.qualname, where(fn, line), f"URI prefixes are ordered with `{show(srt)[:60]}`, not plain sorted order", detail="sort-key")
     if not (op(x) == "call" and x[1] == ("func", f"{D}._get_uri_prefix_to_luids")):
@@ -490,6 +507,12 @@ def _dnf(t, pol: bool) -> list[list]:
 def d7(cx: Cx, ob: Ob) -> None:
     fn, s = helper(cx, ob)
     conv = ("param", "converter")
+    from ..rules import table_of_code
+
+    tab = table_of_code(cx, s.paths)
+    if tab:
+        ob.undecide(f"{fn.name} decides which URIs to skip through {tab}: the skip conditions are values (a list of predicates), not tests this rule can classify")
+        return
     loops = [ev for ev, ctx in s.walk() if ev.kind == "loop" and not ctx.loops]
     if not loops:
         ob.undecide("no loop over the URIs")
